@@ -171,6 +171,18 @@ def work_stack(job):
     if res['rc'] not in (0, 'timeout'):
         key = D.sanitizer_key(res.get('err', ''), res['rc'] if isinstance(res['rc'], int) else None)
         r.violate('nopool:%s:%s' % (key, name), '%s with %d bytes on the no-pool ASan build: %s' % (name, big, key), dict(construct=name, bytes=big, variant='asan-nopool'), res.get('err'))
+    if o is not None:
+        # ... and with the shipped optimisation level: frames are small, so go much deeper (1.2 MB of openers)
+        data = make_input(name, o, c, fill, 1200000, True)
+        res = run_cost('plain-nopool', D.FMT['html'], D.EXT_CLI, data, timeout=120)
+        r.evaluations += 1
+        r.stats['child_runs_nopool_deep'] += 1
+        if res['rc'] not in (0, 'timeout'):
+            sig = signal.Signals(-res['rc']).name if isinstance(res['rc'], int) and res['rc'] < 0 else 'rc%s' % res['rc']
+            r.violate('nopool:crash:%s:%s' % (sig, name), '%s with 1200000 bytes of openers on the no-pool build (shipped flags, 8 MiB stack): child ended with %s' % (name, sig),
+                      dict(construct=name, bytes=1200000, variant='plain-nopool'), res.get('err'))
+        elif res['rc'] == 0:
+            r.distinct.add((name, 'nopool-deep'))
     if idx == 0:
         r.samples.append(dict(construct=name, input=core.show(make_input(name, o, c, fill, 40, True)), highwater_bytes={str(k): v for k, v in hw.items()}))
     return r
